@@ -794,6 +794,8 @@ bool BW_MidiSequencer::buildSmfTrackData(const std::vector<std::vector<uint8_t> 
                 if (!m_trackData[tk].empty())
                 {
                     MidiTrackRow &previous = m_trackData[tk].back();
+                    // The End-of-Track row moves back to the row it is played with, also for the time line
+                    abs_position -= previous.delay;
                     previous.delay = 0;
                     previous.timeDelay = 0;
                 }
